@@ -8,6 +8,7 @@
     get_neighbor_ids_filtered        → `nbrIds`
     traverse                         → `travPush`, `travLoop`, `traverse`
     find_variable_paths (+ dfs)      → `varNbrs`, `varDfs`, `findVariablePaths`
+    find_all_paths + enumerate_paths → `apScan`, `apLevel`, `apLoop`, `apEnum`, `findAllPaths`
 
   The engine keeps, per node, two id lists `node:N:out` / `node:N:in` (creation order, no
   duplicates): a directed edge a→b is in out(a) and in(b); an undirected edge is in out+in of BOTH
@@ -315,6 +316,101 @@ def findWeightedPath (g : Graph) (src tgt : Nat) : Except QErr WPath :=
     | .ok (some (cost, p)) =>
       let r := reconstruct p src (p.length + 1) tgt [] []
       .ok { nodes := r.nodes, edges := r.edges, total := cost }
+
+/-! ### find_all_paths (all shortest paths, level BFS with multi-parent tracking) -/
+
+/-- `parents: HashMap<u64, Vec<(u64,u64)>>` -/
+abbrev MultiParent := List (Nat × List (Nat × Nat))
+
+def lookupLevel (m : List (Nat × Nat)) (n : Nat) : Option Nat :=
+  match m.find? (·.1 == n) with
+  | some (_, l) => some l
+  | none => none
+
+def lookupParents (m : MultiParent) (n : Nat) : Option (List (Nat × Nat)) :=
+  match m.find? (·.1 == n) with
+  | some (_, ps) => some ps
+  | none => none
+
+/-- `parents.get_mut(&n).push(..)` when shorter than `max_parents_per_node` -/
+def pushParent (cap : Nat) (n : Nat) (entry : Nat × Nat) : MultiParent → MultiParent
+  | [] => []
+  | (k, ps) :: rest =>
+    if k == n then (k, if ps.length < cap then ps ++ [entry] else ps) :: rest
+    else (k, ps) :: pushParent cap n entry rest
+
+structure APSt where
+  levels : List (Nat × Nat)     -- visited_level
+  parents : MultiParent
+  next : List Nat               -- next_level
+  found : Bool                  -- destination_level.is_some()
+deriving Repr, Inhabited
+
+/-- `find_all_paths` uses the out-list only, no filter -/
+def apNbr (cur : Nat) (e : Edge) : Option Nat :=
+  if e.src == cur then some e.dst
+  else if !e.directed && e.dst == cur then some e.src
+  else none
+
+/-- the `for edge_id in out_list(current)` loop at BFS level `level` -/
+def apScan (cap tgt cur level : Nat) : List Edge → APSt → APSt
+  | [], st => st
+  | e :: es, st =>
+    match apNbr cur e with
+    | none => apScan cap tgt cur level es st
+    | some nb =>
+      match lookupLevel st.levels nb with
+      | none =>
+        apScan cap tgt cur level es
+          { levels := (nb, level) :: st.levels, parents := (nb, [(cur, e.id)]) :: st.parents,
+            next := st.next ++ [nb], found := st.found || nb == tgt }
+      | some l =>
+        if l == level then
+          apScan cap tgt cur level es { st with parents := pushParent cap nb (cur, e.id) st.parents }
+        else apScan cap tgt cur level es st
+
+/-- `while let Some(current) = current_level.pop_front()` -/
+def apLevel (g : Graph) (cap tgt level : Nat) : List Nat → APSt → APSt
+  | [], st => st
+  | cur :: rest, st => apLevel g cap tgt level rest (apScan cap tgt cur level (outEdges g cur) st)
+
+/-- `while !current_level.is_empty() && destination_level.is_none()`; returns (hop count, parents) -/
+def apLoop (g : Graph) (cap tgt : Nat) : Nat → Nat → List Nat → APSt → Option (Nat × MultiParent)
+  | 0, _, _, _ => none
+  | fuel + 1, level, current, st =>
+    if current.isEmpty then none
+    else
+      let st' := apLevel g cap tgt (level + 1) current { st with next := [] }
+      if st'.found then some (level + 1, st'.parents)
+      else apLoop g cap tgt fuel (level + 1) st'.next st'
+
+/-- `enumerate_paths`: the explicit stack pops the LAST pushed parent first, so parents are explored
+    in reverse list order, depth first; `d` bounds the depth (parents sit one level lower each step).
+    `ns`/`es` are already in forward order. -/
+def apEnum (parents : MultiParent) (src : Nat) : Nat → Nat → List Nat → List Nat → List Path
+  | d, cur, ns, es =>
+    if cur == src then [{ nodes := ns, edges := es }]
+    else match d with
+      | 0 => []
+      | d + 1 =>
+        match lookupParents parents cur with
+        | none => []
+        | some ps => ps.reverse.flatMap (fun (p, eid) => apEnum parents src d p (p :: ns) (eid :: es))
+
+structure AllPaths where
+  hops : Nat
+  paths : List Path
+deriving Repr, Inhabited
+
+/-- `find_all_paths(from, to, config)`; `maxPaths`/`cap` = `AllPathsConfig` (defaults 1000 / 100) -/
+def findAllPaths (g : Graph) (maxPaths cap : Nat) (src tgt : Nat) : Except QErr AllPaths :=
+  if !g.hasNode src then .error (.nodeNotFound src)
+  else if !g.hasNode tgt then .error (.nodeNotFound tgt)
+  else if src == tgt then .ok { hops := 0, paths := [{ nodes := [src], edges := [] }] }
+  else
+    match apLoop g cap tgt (bfsFuel g) 0 [src] { levels := [(src, 0)], parents := [], next := [], found := false } with
+    | none => .error .pathNotFound
+    | some (hops, parents) => .ok { hops := hops, paths := (apEnum parents src hops tgt [tgt] []).take maxPaths }
 
 /-! ### neighbours and traverse -/
 
